@@ -42,6 +42,8 @@ class _Walker:
         self.notifies = []
         self.calls = []       # every self.<method>(…) call: (callee, lexically locked)
         self.accesses = []    # every mention of self.out_window_size: (kind, lexically locked, line)
+        self.sends = []       # every self.transport._send_user_message / _send_message call: lexically locked?
+        self.unlinks = []     # argument of every self.transport._unlink_channel(…) call, as source text
 
     def exprs(self, node, locked):
         for n in ast.walk(node):
@@ -50,6 +52,12 @@ class _Walker:
             if isinstance(n, ast.Call) and isinstance(n.func, ast.Attribute) and isinstance(n.func.value, ast.Name) \
                     and n.func.value.id == "self":
                 self.calls.append((n.func.attr, locked))
+            if isinstance(n, ast.Call) and isinstance(n.func, ast.Attribute) \
+                    and _is_self_attr(n.func.value, "transport"):
+                if n.func.attr in ("_send_user_message", "_send_message"):
+                    self.sends.append(locked)
+                if n.func.attr == "_unlink_channel":
+                    self.unlinks.append(ast.unparse(n.args[0]) if len(n.args) == 1 else "?")
             if isinstance(n, ast.Call) and isinstance(n.func, ast.Attribute):
                 if n.func.attr in self.targets and _is_self_attr(n.func, n.func.attr):
                     self.sites.append({"caller": self.fname, "target": n.func.attr, "lex": locked, "line": n.lineno})
@@ -212,6 +220,32 @@ def gate_lines(channel_cls):
     return out
 
 
+def blocking_sends_under_lock(channel_cls):
+    """methods of class Channel that call transport._send_user_message / _send_message inside a `self.lock` region
+    — lexically, or because the method itself may be called with the lock held (some call site of it is locked,
+    transitively)"""
+    src = textwrap.dedent(inspect.getsource(channel_cls))
+    cls = ast.parse(src).body[0]
+    walkers = {}
+    for fn in cls.body:
+        if isinstance(fn, ast.FunctionDef):
+            w = _Walker(fn.name)
+            w.block(fn.body, False)
+            walkers[fn.name] = w
+    maybe = {name: False for name in walkers}
+    for _ in range(len(walkers) + 2):
+        for name in walkers:
+            maybe[name] = any(lex or maybe[cname] for cname, w in walkers.items()
+                              for callee, lex in w.calls if callee == name)
+    bad = []
+    unlink_args = []
+    for name, w in walkers.items():
+        if any(lex or maybe[name] for lex in w.sends):
+            bad.append(name)
+        unlink_args += w.unlinks
+    return bad, unlink_args
+
+
 def addressing_counts(channel_cls):
     """(#calls add_int(self.chanid), #calls add_int(self.remote_chanid)) in class Channel: channel messages must
     name the peer's id"""
@@ -229,10 +263,11 @@ def addressing_counts(channel_cls):
 def lean_tables_for(channel_cls):
     """the whole generated file PV/Generated/ChanLock.lean for this source tree (same content whoever writes it)"""
     sites, notifies = channel_tables(channel_cls)
-    return lean_tables(sites, notifies, window_accesses(channel_cls), addressing_counts(channel_cls))
+    return lean_tables(sites, notifies, window_accesses(channel_cls), addressing_counts(channel_cls),
+                       blocking_sends_under_lock(channel_cls))
 
 
-def lean_tables(sites, notifies, accesses=None, addr=None):
+def lean_tables(sites, notifies, accesses=None, addr=None, sends=None):
     def b(x):
         return "true" if x else "false"
     out = ["/- GENERATED from the AST of paramiko/channel.py (class Channel) by pv/lib_chanlock.py — do not edit. -/",
@@ -267,5 +302,11 @@ def lean_tables(sites, notifies, accesses=None, addr=None):
         out += ["/-- calls `add_int(self.chanid)` / `add_int(self.remote_chanid)` in class Channel -/",
                 "def ownIdInMessages : Nat := %d" % addr[0],
                 "def remoteIdInMessages : Nat := %d" % addr[1], ""]
+    if sends is not None:
+        bad, unlink_args = sends
+        out += ["/-- methods that call transport._send_user_message / _send_message while (possibly) holding self.lock -/",
+                "def sendsUnderLock : List String := [%s]" % ", ".join('"%s"' % x for x in bad), "",
+                "/-- the argument of every transport._unlink_channel(…) call in class Channel -/",
+                "def unlinkArgs : List String := [%s]" % ", ".join('"%s"' % x for x in unlink_args), ""]
     out += ["end PV.Generated.ChanLock", ""]
     return "\n".join(out)
